@@ -12,12 +12,12 @@ Section Abs.
   Variable precord : parser (record N).
 
   (* one next() on the pending bytes [pend] after read_until returned [r] *)
-  Definition a_core (pend r : list N) : list N * res (option (record N)) :=
+  Definition a_core_g (guard : bool) (pend r : list N) : list N * res (option (record N)) :=
     let n := length r in
     let all := pend ++ r in
     let slice : res (list N) :=
       if n =? 0 then Ok pend
-      else if is_nil pend then Panic 32 else Ok (firstn (n + 1) all) in
+      else if is_nil pend then (if guard then Ok all else Panic 32) else Ok (firstn (n + 1) all) in
     match slice with
     | Panic k => (all, Panic k)
     | Err e => (all, Err e)
@@ -39,6 +39,8 @@ Section Abs.
               end
         end
     end.
+
+  Definition a_core := a_core_g GenIoAbc.gen_jaspar_slice_guard.
 
   Definition a_next (ps : list N * stream) : (list N * stream) * res (option (record N)) :=
     let (r, s') := read_until 62 (snd ps) in
@@ -89,7 +91,8 @@ Section Abs.
     skipn (jstart st') (jbuf st') = fst ps' /\ jstream st' = snd ps' /\ jstart st' <= length (jbuf st').
   Proof.
     intros cap [buf0 start stream] Hle. cbn [jstream jstart jbuf] in *.
-    unfold j_next, a_next, a_core. cbn [jstream jstart jbuf fst snd].
+    unfold j_next, j_next_g, a_next, a_core, a_core_g. generalize GenIoAbc.gen_jaspar_slice_guard as guard. intros guard.
+    cbn [jstream jstart jbuf fst snd].
     destruct (read_until 62 stream) as [r s'].
     set (pend := skipn start buf0).
     assert (skipn start (buf0 ++ r) = pend ++ r) as Hs by (apply skipn_app_le; exact Hle).
@@ -101,9 +104,12 @@ Section Abs.
       (if length r =? 0
        then if start <=? length (buf0 ++ r) then Ok (skipn start (buf0 ++ r)) else Panic 31
        else if start + length r <? length (buf0 ++ r)
-            then Ok (firstn (length r + 1) (skipn start (buf0 ++ r))) else Panic 32) = sl /\
+            then Ok (firstn (length r + 1) (skipn start (buf0 ++ r)))
+            else if guard then (if start <=? length (buf0 ++ r) then Ok (skipn start (buf0 ++ r)) else Panic 31)
+                 else Panic 32) = sl /\
       (if length r =? 0 then Ok pend
-       else if is_nil pend then Panic 32 else Ok (firstn (length r + 1) (pend ++ r))) = sl /\
+       else if is_nil pend then (if guard then Ok (pend ++ r) else Panic 32)
+            else Ok (firstn (length r + 1) (pend ++ r))) = sl /\
       match sl with Ok bytes => length bytes <= length (pend ++ r) | Panic _ => True | _ => False end)
       as [sl [E1 [E2 Lsl]]].
     { destruct (length r =? 0) eqn:En.
@@ -117,7 +123,9 @@ Section Abs.
           - apply Nat.ltb_ge in Q. apply Nat.ltb_ge. lia. }
         rewrite T. destruct (start <? length buf0); cbn [negb].
         + rewrite Hs. eexists. repeat split. rewrite firstn_length. lia.
-        + eexists. repeat split. }
+        + destruct guard; [|eexists; repeat split].
+          assert (start <=? length (buf0 ++ r) = true) as T3 by (apply Nat.leb_le; lia). rewrite T3.
+          rewrite Hs. eexists. repeat split. lia. }
     rewrite E1, E2.
     assert (skipn start (buf0 ++ r) = pend ++ r /\ s' = s' /\ start <= length (buf0 ++ r)) as G1 by auto.
     destruct sl as [bytes|e|k|]; try contradiction; [|cbn [fst snd jstream jstart jbuf]; split; [reflexivity|exact G1]].
